@@ -18,6 +18,17 @@ DIMOBJ = {l: Dimension(name=NAMES[l], letter=l, items=ITEMS[l], dtype=DTYPES[l])
 LM = {"FixedLifetime": flodym.FixedLifetime, "WeibullLifetime": flodym.WeibullLifetime}
 
 
+class UserStockDrivenDSM(flodym.StockDrivenDSM):
+    """a user-defined stock class that inherits every field"""
+
+    def describe(self):
+        return f"user stock {self.name}"
+
+
+def stock_class(name):
+    return UserStockDrivenDSM if name == "UserStockDrivenDSM" else getattr(flodym, name)
+
+
 def param_values(name, dims):
     shape = tuple(len(ITEMS[l]) for l in dims)
     base = {"alpha": 1.0, "beta": 100.0, "gamma": 7.0}.get(name, 3.0)
@@ -49,7 +60,7 @@ def make_definition(d):
                                    name_override=(f["override"] or None)) for f in d["flows"]]
     stocks = []
     for s in d["stocks"]:
-        kw = dict(name=s["name"], dim_letters=tuple(s["dims"]), subclass=getattr(flodym, s["cls"]), solver=s["solver"],
+        kw = dict(name=s["name"], dim_letters=tuple(s["dims"]), subclass=stock_class(s["cls"]), solver=s["solver"],
                   time_letter=s["tl"])
         if s["proc"]:
             kw["process"] = s["proc"]
